@@ -11,7 +11,7 @@
 (* "settle_late_stopping"} selects candidate repairs; {} is the pinned tree.    *)
 EXTENDS Integers, Sequences, FiniteSets, TLC
 
-CONSTANTS Script,      \* sequence of "start" / "stop" / "endrep" (end_replication)
+CONSTANTS Script,      \* sequence of "start" / "stop" / "endrep" (end_replication) / "cleanup"
           NEvents,     \* events on the event list (times 1..NEvents, replication end beyond)
           Faulty,      \* set of event numbers whose handler raises (WARN_AND_PAUSE)
           Stoppers,    \* set of event numbers whose handler calls stop() (a command issued on the run thread)
@@ -33,11 +33,13 @@ variables rs = "INITIALIZED", rep = "INITIALIZED", runflag = FALSE, fin = FALSE,
           staleEnd = FALSE,     \* history: end_replication() woke the run thread just before it cleared its wake-up flag
           earlyStop = FALSE,    \* history: a START_EVENT listener's stop() wrote STOPPING before the run thread wrote STARTED over it
           selfStart = FALSE,    \* history: a STOP_EVENT listener's start() was admitted on the run thread, which then clears its own wake-up
+          pendingStart = FALSE, \* an accepted start() has written STARTING and the run thread has not yet acted on it
+          cleaned = FALSE,      \* cleanup() has written NOT_INITIALIZED
           usedStart = FALSE, usedStop = FALSE,   \* the listeners act once
           hret = "R1a",         \* where stop() on the run thread returns to: the run loop (handler) or W5 (START_EVENT listener)
           wrote = FALSE,        \* the command in progress has written shared state
           afterStop = -1,       \* events executed since an accepted stop() wrote STOPPING (-1: no stop in force)
-          ctimedout = FALSE, wtimedout = FALSE,   \* a second has passed since the caller's / the run thread's current spin wait began (time is global)
+          ctimedout = FALSE, wtimedout = FALSE,   \* the caller's / the run thread's current spin wait has reached its one-second limit (see DESIGN 9.4: independent)
           last = [t |-> "-", k |-> "-", v |-> "-", x |-> "-"];   \* the access just performed (binding)
 
 define
@@ -72,10 +74,11 @@ W3:
 W5:
   rs := "STARTED"; Acc("w", "W", "rs", "STARTED");
 R0:
-  runflag := TRUE; segments := segments + 1; AccB("w", "W", "runflag", TRUE);
+  runflag := TRUE; segments := segments + 1; pendingStart := FALSE; AccB("w", "W", "runflag", TRUE);
 R1a:      \* while not self.is_stopping_or_stopped(): run_state == STARTING ?
   Acc("w", "R", "rs", rs);
   if rs = "STARTING" then      \* (the loop body follows at once: empty test and pop_first are not announced)
+    pendingStart := FALSE;     \* a start() admitted while the loop was still running keeps it running
     if next <= NEvents then cur := next; next := next + 1; else cur := 0; end if;
     goto R_body;
   end if;
@@ -117,7 +120,7 @@ H4s:
   either
     Acc("w", "sleep", "-", "-");
   or
-    wtimedout := TRUE; ctimedout := TRUE; Acc("w", "sleep", "timeout", "-");
+    wtimedout := TRUE; Acc("w", "sleep", "timeout", "-");
   end either;
   goto H4f;
 R_fault:  \* WARN_AND_PAUSE: self._run_state = STOPPING
@@ -143,7 +146,7 @@ L3b:
   if rep # "STARTED" then goto W7; end if;        \* after the natural end (ENDING) the start is refused
 L5:
   selfStart := TRUE;
-  rs := "STARTING"; afterStop := -1; Acc("w", "W", "rs", "STARTING");
+  rs := "STARTING"; afterStop := -1; pendingStart := TRUE; Acc("w", "W", "rs", "STARTING");
 L6a:
   Acc("w", "R", "rep", rep);
   if rep # "INITIALIZED" then goto L8; end if;
@@ -158,7 +161,7 @@ L9s:      \* the run thread waits for its own run loop: only the clock ends this
   either
     Acc("w", "sleep", "-", "-");
   or
-    wtimedout := TRUE; ctimedout := TRUE; Acc("w", "sleep", "timeout", "-");
+    wtimedout := TRUE; Acc("w", "sleep", "timeout", "-");
   end either;
   goto L9r;
 L10:
@@ -171,7 +174,7 @@ W8:
     if "clear_after_wait" \in Fixes then goto W_loop; else goto W_clear; end if;
   end if;
 W9a:
-  rep := "ENDED"; Acc("w", "W", "rep", "ENDED");
+  rep := "ENDED"; pendingStart := FALSE; Acc("w", "W", "rep", "ENDED");    \* (the end of the replication supersedes a start)
 W9b:
   rs := "ENDED"; Acc("w", "W", "rs", "ENDED");
 W9c:
@@ -193,7 +196,7 @@ begin
 C_next:
   wrote := FALSE; ok := TRUE;
   Acc("c", "cmd", Script[i], "-");
-  if Script[i] = "start" then goto S1a; elsif Script[i] = "stop" then goto P1a; else goto E1; end if;
+  if Script[i] = "start" then goto S1a; elsif Script[i] = "stop" then goto P1a; elsif Script[i] = "endrep" then goto E1; else goto K1; end if;
 S1a:    \* is_starting_or_running(): == STARTING ?
   Acc("c", "R", "rs", rs);
   if rs = "STARTING" then ok := FALSE; goto C_ret; end if;
@@ -215,8 +218,8 @@ S3b:    \* ... or STARTED ?
   Acc("c", "R", "rep", rep);
   if rep # "STARTED" then ok := FALSE; goto C_ret; end if;
 S5:
-  staleStart := staleStart \/ PostRun(pc["w"]) \/ (InRunLoop(pc["w"]) /\ rs = "STOPPING");
-  rs := "STARTING"; wrote := TRUE; afterStop := -1; Acc("c", "W", "rs", "STARTING");
+  staleStart := staleStart \/ PostRun(pc["w"]) \/ pc["w"] = "R1b";   \* the run loop has decided (or is deciding: between its two reads) to leave
+  rs := "STARTING"; wrote := TRUE; afterStop := -1; pendingStart := TRUE; Acc("c", "W", "rs", "STARTING");
 S6a:
   Acc("c", "R", "rep", rep);
   if rep # "INITIALIZED" then goto S8; end if;
@@ -232,7 +235,7 @@ S9s:
     Acc("c", "sleep", "-", "-");
   or
     await AnyTimeout \/ WBlocked \/ WDone;
-    ctimedout := TRUE; wtimedout := TRUE; Acc("c", "sleep", "timeout", "-");
+    ctimedout := TRUE; Acc("c", "sleep", "timeout", "-");
   end either;
   goto S9r;
 S10:
@@ -246,7 +249,7 @@ P1b:
   if rs # "STARTED" then ok := FALSE; goto C_ret; end if;
 P3:     \* the write; then "while not worker.is_waiting() ..." looks at the waiters without an announcement
   lateStop := lateStop \/ ~InRunLoop(pc["w"]) \/ pc["w"] = "R_end2";
-  rs := "STOPPING"; wrote := TRUE; ctimedout := FALSE; afterStop := 0; Acc("c", "W", "rs", "STOPPING");
+  rs := "STOPPING"; wrote := TRUE; ctimedout := FALSE; afterStop := 0; pendingStart := FALSE; Acc("c", "W", "rs", "STOPPING");
   if WBlocked then if "settle_late_stopping" \in Fixes then goto P5a; else goto C_ret; end if; else goto P4f; end if;
 P4f:    \* ... and not worker.is_finalized()
   AccB("c", "R", "fin", fin);
@@ -257,7 +260,7 @@ P4s:
     if WBlocked then if "settle_late_stopping" \in Fixes then goto P5a; else goto C_ret; end if; else goto P4f; end if;
   or
     await AnyTimeout \/ WDone \/ WBlocked;   \* (when the run thread is parked the loop ends anyway)
-    ctimedout := TRUE; wtimedout := TRUE; Acc("c", "sleep", "timeout", "-");
+    ctimedout := TRUE; Acc("c", "sleep", "timeout", "-");
     if WBlocked then if "settle_late_stopping" \in Fixes then goto P5a; else goto C_ret; end if; else goto P4f; end if;
   end either;
 P5a:    \* candidate repair: the caller settles its own late STOPPING once the run thread is parked or gone
@@ -282,6 +285,30 @@ E3:
 E4:     \* wake the run thread; then the clock is set to the end and the event list is cleared (not announced)
   staleEnd := staleEnd \/ pc["w"] = "W_clear";
   flag := TRUE; next := NEvents + 1; endsOK := endsOK + 1; Acc("c", "ev", "set", "-");
+  goto C_ret;
+K1:     \* cleanup(): _stop_impl() without a precondition: STOPPING, then wait until the run thread is parked or finalized
+  rs := "STOPPING"; wrote := TRUE; ctimedout := FALSE; afterStop := 0; pendingStart := FALSE; Acc("c", "W", "rs", "STOPPING");
+  if WBlocked then goto K3; else goto K2f; end if;
+K2f:
+  AccB("c", "R", "fin", fin);
+  if fin \/ ctimedout then goto K3; end if;
+K2s:
+  either
+    Acc("c", "sleep", "-", "-");
+    if WBlocked then goto K3; else goto K2f; end if;
+  or
+    await AnyTimeout \/ WDone \/ WBlocked;
+    ctimedout := TRUE; Acc("c", "sleep", "timeout", "-");
+    if WBlocked then goto K3; else goto K2f; end if;
+  end either;
+K3:     \* worker.cleanup(): _finalized = True ...
+  fin := TRUE; AccB("c", "W", "fin", TRUE);
+K4:     \* ... and wake it up so that it leaves its loop
+  flag := TRUE; Acc("c", "ev", "set", "-");
+K5:
+  rs := "NOT_INITIALIZED"; afterStop := -1; Acc("c", "W", "rs", "NOT_INITIALIZED");
+K6:
+  rep := "NOT_INITIALIZED"; cleaned := TRUE; Acc("c", "W", "rep", "NOT_INITIALIZED");
 C_ret:
   res := Append(res, IF ok THEN "ok" ELSE "DSOLError");
   Acc("c", "ret", Script[i], IF ok THEN "ok" ELSE "DSOLError");
@@ -292,8 +319,8 @@ end algorithm; *)
 \* BEGIN TRANSLATION
 VARIABLES pc, rs, rep, runflag, fin, flag, next, cur, endsOK, res, startsOK, 
           segments, lateStop, staleStart, lateEnd, staleEnd, earlyStop, 
-          selfStart, usedStart, usedStop, hret, wrote, afterStop, ctimedout, 
-          wtimedout, last
+          selfStart, pendingStart, cleaned, usedStart, usedStop, hret, wrote, 
+          afterStop, ctimedout, wtimedout, last
 
 (* define statement *)
 InRunLoop(p) == p \in {"R0", "R1a", "R1b", "R_body", "R_fault", "R_end1", "R_end2"} \/ (p \in {"H1a", "H1b", "H3", "H4f", "H4s"} /\ hret = "R1a")
@@ -305,8 +332,8 @@ VARIABLES i, ok
 
 vars == << pc, rs, rep, runflag, fin, flag, next, cur, endsOK, res, startsOK, 
            segments, lateStop, staleStart, lateEnd, staleEnd, earlyStop, 
-           selfStart, usedStart, usedStop, hret, wrote, afterStop, ctimedout, 
-           wtimedout, last, i, ok >>
+           selfStart, pendingStart, cleaned, usedStart, usedStop, hret, wrote, 
+           afterStop, ctimedout, wtimedout, last, i, ok >>
 
 ProcSet == {"w"} \cup {"c"}
 
@@ -328,6 +355,8 @@ Init == (* Global variables *)
         /\ staleEnd = FALSE
         /\ earlyStop = FALSE
         /\ selfStart = FALSE
+        /\ pendingStart = FALSE
+        /\ cleaned = FALSE
         /\ usedStart = FALSE
         /\ usedStop = FALSE
         /\ hret = "R1a"
@@ -350,8 +379,9 @@ W_woke == /\ pc["w"] = "W_woke"
                 ELSE /\ pc' = [pc EXCEPT !["w"] = "W2"]
           /\ UNCHANGED << rs, rep, runflag, fin, flag, next, cur, endsOK, res, 
                           startsOK, segments, lateStop, staleStart, lateEnd, 
-                          staleEnd, earlyStop, selfStart, usedStart, usedStop, 
-                          hret, wrote, afterStop, ctimedout, wtimedout, i, ok >>
+                          staleEnd, earlyStop, selfStart, pendingStart, 
+                          cleaned, usedStart, usedStop, hret, wrote, afterStop, 
+                          ctimedout, wtimedout, i, ok >>
 
 W_clear0 == /\ pc["w"] = "W_clear0"
             /\ flag' = FALSE
@@ -359,9 +389,9 @@ W_clear0 == /\ pc["w"] = "W_clear0"
             /\ pc' = [pc EXCEPT !["w"] = "W2"]
             /\ UNCHANGED << rs, rep, runflag, fin, next, cur, endsOK, res, 
                             startsOK, segments, lateStop, staleStart, lateEnd, 
-                            staleEnd, earlyStop, selfStart, usedStart, 
-                            usedStop, hret, wrote, afterStop, ctimedout, 
-                            wtimedout, i, ok >>
+                            staleEnd, earlyStop, selfStart, pendingStart, 
+                            cleaned, usedStart, usedStop, hret, wrote, 
+                            afterStop, ctimedout, wtimedout, i, ok >>
 
 W2 == /\ pc["w"] = "W2"
       /\ last' = [t |-> "w", k |-> "R", v |-> "fin", x |-> IF fin THEN "True" ELSE "False"]
@@ -372,8 +402,9 @@ W2 == /\ pc["w"] = "W2"
             ELSE /\ pc' = [pc EXCEPT !["w"] = "W3"]
       /\ UNCHANGED << rs, rep, runflag, fin, flag, next, cur, endsOK, res, 
                       startsOK, segments, lateStop, staleStart, lateEnd, 
-                      staleEnd, earlyStop, selfStart, usedStart, usedStop, 
-                      hret, wrote, afterStop, ctimedout, wtimedout, i, ok >>
+                      staleEnd, earlyStop, selfStart, pendingStart, cleaned, 
+                      usedStart, usedStop, hret, wrote, afterStop, ctimedout, 
+                      wtimedout, i, ok >>
 
 W3 == /\ pc["w"] = "W3"
       /\ last' = [t |-> "w", k |-> "R", v |-> "rep", x |-> rep]
@@ -388,8 +419,8 @@ W3 == /\ pc["w"] = "W3"
                             /\ UNCHANGED << usedStart, hret >>
       /\ UNCHANGED << rs, rep, runflag, fin, flag, next, cur, endsOK, res, 
                       startsOK, segments, lateStop, staleStart, lateEnd, 
-                      staleEnd, earlyStop, selfStart, usedStop, wrote, 
-                      afterStop, ctimedout, wtimedout, i, ok >>
+                      staleEnd, earlyStop, selfStart, pendingStart, cleaned, 
+                      usedStop, wrote, afterStop, ctimedout, wtimedout, i, ok >>
 
 W5 == /\ pc["w"] = "W5"
       /\ rs' = "STARTED"
@@ -397,34 +428,37 @@ W5 == /\ pc["w"] = "W5"
       /\ pc' = [pc EXCEPT !["w"] = "R0"]
       /\ UNCHANGED << rep, runflag, fin, flag, next, cur, endsOK, res, 
                       startsOK, segments, lateStop, staleStart, lateEnd, 
-                      staleEnd, earlyStop, selfStart, usedStart, usedStop, 
-                      hret, wrote, afterStop, ctimedout, wtimedout, i, ok >>
+                      staleEnd, earlyStop, selfStart, pendingStart, cleaned, 
+                      usedStart, usedStop, hret, wrote, afterStop, ctimedout, 
+                      wtimedout, i, ok >>
 
 R0 == /\ pc["w"] = "R0"
       /\ runflag' = TRUE
       /\ segments' = segments + 1
+      /\ pendingStart' = FALSE
       /\ last' = [t |-> "w", k |-> "W", v |-> "runflag", x |-> IF TRUE THEN "True" ELSE "False"]
       /\ pc' = [pc EXCEPT !["w"] = "R1a"]
       /\ UNCHANGED << rs, rep, fin, flag, next, cur, endsOK, res, startsOK, 
                       lateStop, staleStart, lateEnd, staleEnd, earlyStop, 
-                      selfStart, usedStart, usedStop, hret, wrote, afterStop, 
-                      ctimedout, wtimedout, i, ok >>
+                      selfStart, cleaned, usedStart, usedStop, hret, wrote, 
+                      afterStop, ctimedout, wtimedout, i, ok >>
 
 R1a == /\ pc["w"] = "R1a"
        /\ last' = [t |-> "w", k |-> "R", v |-> "rs", x |-> rs]
        /\ IF rs = "STARTING"
-             THEN /\ IF next <= NEvents
+             THEN /\ pendingStart' = FALSE
+                  /\ IF next <= NEvents
                         THEN /\ cur' = next
                              /\ next' = next + 1
                         ELSE /\ cur' = 0
                              /\ next' = next
                   /\ pc' = [pc EXCEPT !["w"] = "R_body"]
              ELSE /\ pc' = [pc EXCEPT !["w"] = "R1b"]
-                  /\ UNCHANGED << next, cur >>
+                  /\ UNCHANGED << next, cur, pendingStart >>
        /\ UNCHANGED << rs, rep, runflag, fin, flag, endsOK, res, startsOK, 
                        segments, lateStop, staleStart, lateEnd, staleEnd, 
-                       earlyStop, selfStart, usedStart, usedStop, hret, wrote, 
-                       afterStop, ctimedout, wtimedout, i, ok >>
+                       earlyStop, selfStart, cleaned, usedStart, usedStop, 
+                       hret, wrote, afterStop, ctimedout, wtimedout, i, ok >>
 
 R1b == /\ pc["w"] = "R1b"
        /\ last' = [t |-> "w", k |-> "R", v |-> "rs", x |-> rs]
@@ -444,8 +478,8 @@ R1b == /\ pc["w"] = "R1b"
                   /\ UNCHANGED usedStop
        /\ UNCHANGED << rs, rep, runflag, fin, flag, endsOK, res, startsOK, 
                        segments, lateStop, staleStart, lateEnd, staleEnd, 
-                       earlyStop, selfStart, usedStart, hret, wrote, afterStop, 
-                       ctimedout, wtimedout, i, ok >>
+                       earlyStop, selfStart, pendingStart, cleaned, usedStart, 
+                       hret, wrote, afterStop, ctimedout, wtimedout, i, ok >>
 
 R_body == /\ pc["w"] = "R_body"
           /\ IF cur # 0
@@ -463,8 +497,9 @@ R_body == /\ pc["w"] = "R_body"
                      /\ UNCHANGED afterStop
           /\ UNCHANGED << rs, runflag, fin, flag, next, cur, endsOK, res, 
                           startsOK, segments, lateStop, staleStart, lateEnd, 
-                          staleEnd, earlyStop, selfStart, usedStart, usedStop, 
-                          hret, wrote, ctimedout, wtimedout, i, ok >>
+                          staleEnd, earlyStop, selfStart, pendingStart, 
+                          cleaned, usedStart, usedStop, hret, wrote, ctimedout, 
+                          wtimedout, i, ok >>
 
 H1a == /\ pc["w"] = "H1a"
        /\ last' = [t |-> "w", k |-> "R", v |-> "rs", x |-> rs]
@@ -473,8 +508,9 @@ H1a == /\ pc["w"] = "H1a"
              ELSE /\ pc' = [pc EXCEPT !["w"] = "H1b"]
        /\ UNCHANGED << rs, rep, runflag, fin, flag, next, cur, endsOK, res, 
                        startsOK, segments, lateStop, staleStart, lateEnd, 
-                       staleEnd, earlyStop, selfStart, usedStart, usedStop, 
-                       hret, wrote, afterStop, ctimedout, wtimedout, i, ok >>
+                       staleEnd, earlyStop, selfStart, pendingStart, cleaned, 
+                       usedStart, usedStop, hret, wrote, afterStop, ctimedout, 
+                       wtimedout, i, ok >>
 
 H1b == /\ pc["w"] = "H1b"
        /\ last' = [t |-> "w", k |-> "R", v |-> "rs", x |-> rs]
@@ -488,8 +524,9 @@ H1b == /\ pc["w"] = "H1b"
                   /\ hret' = hret
        /\ UNCHANGED << rs, rep, runflag, fin, flag, next, cur, endsOK, res, 
                        startsOK, segments, lateStop, staleStart, lateEnd, 
-                       staleEnd, earlyStop, selfStart, usedStart, usedStop, 
-                       wrote, afterStop, ctimedout, wtimedout, i, ok >>
+                       staleEnd, earlyStop, selfStart, pendingStart, cleaned, 
+                       usedStart, usedStop, wrote, afterStop, ctimedout, 
+                       wtimedout, i, ok >>
 
 H3 == /\ pc["w"] = "H3"
       /\ earlyStop' = (earlyStop \/ hret = "W5")
@@ -500,8 +537,8 @@ H3 == /\ pc["w"] = "H3"
       /\ pc' = [pc EXCEPT !["w"] = "H4f"]
       /\ UNCHANGED << rep, runflag, fin, flag, next, cur, endsOK, res, 
                       startsOK, segments, lateStop, staleStart, lateEnd, 
-                      staleEnd, selfStart, usedStart, usedStop, hret, wrote, 
-                      ctimedout, i, ok >>
+                      staleEnd, selfStart, pendingStart, cleaned, usedStart, 
+                      usedStop, hret, wrote, ctimedout, i, ok >>
 
 H4f == /\ pc["w"] = "H4f"
        /\ last' = [t |-> "w", k |-> "R", v |-> "fin", x |-> IF fin THEN "True" ELSE "False"]
@@ -515,20 +552,21 @@ H4f == /\ pc["w"] = "H4f"
                   /\ hret' = hret
        /\ UNCHANGED << rs, rep, runflag, fin, flag, next, cur, endsOK, res, 
                        startsOK, segments, lateStop, staleStart, lateEnd, 
-                       staleEnd, earlyStop, selfStart, usedStart, usedStop, 
-                       wrote, afterStop, ctimedout, wtimedout, i, ok >>
+                       staleEnd, earlyStop, selfStart, pendingStart, cleaned, 
+                       usedStart, usedStop, wrote, afterStop, ctimedout, 
+                       wtimedout, i, ok >>
 
 H4s == /\ pc["w"] = "H4s"
        /\ \/ /\ last' = [t |-> "w", k |-> "sleep", v |-> "-", x |-> "-"]
-             /\ UNCHANGED <<ctimedout, wtimedout>>
+             /\ UNCHANGED wtimedout
           \/ /\ wtimedout' = TRUE
-             /\ ctimedout' = TRUE
              /\ last' = [t |-> "w", k |-> "sleep", v |-> "timeout", x |-> "-"]
        /\ pc' = [pc EXCEPT !["w"] = "H4f"]
        /\ UNCHANGED << rs, rep, runflag, fin, flag, next, cur, endsOK, res, 
                        startsOK, segments, lateStop, staleStart, lateEnd, 
-                       staleEnd, earlyStop, selfStart, usedStart, usedStop, 
-                       hret, wrote, afterStop, i, ok >>
+                       staleEnd, earlyStop, selfStart, pendingStart, cleaned, 
+                       usedStart, usedStop, hret, wrote, afterStop, ctimedout, 
+                       i, ok >>
 
 R_fault == /\ pc["w"] = "R_fault"
            /\ rs' = "STOPPING"
@@ -536,8 +574,9 @@ R_fault == /\ pc["w"] = "R_fault"
            /\ pc' = [pc EXCEPT !["w"] = "R1a"]
            /\ UNCHANGED << rep, runflag, fin, flag, next, cur, endsOK, res, 
                            startsOK, segments, lateStop, staleStart, lateEnd, 
-                           staleEnd, earlyStop, selfStart, usedStart, usedStop, 
-                           hret, wrote, afterStop, ctimedout, wtimedout, i, ok >>
+                           staleEnd, earlyStop, selfStart, pendingStart, 
+                           cleaned, usedStart, usedStop, hret, wrote, 
+                           afterStop, ctimedout, wtimedout, i, ok >>
 
 R_end2 == /\ pc["w"] = "R_end2"
           /\ rs' = "STOPPING"
@@ -549,8 +588,9 @@ R_end2 == /\ pc["w"] = "R_end2"
                      /\ UNCHANGED usedStop
           /\ UNCHANGED << rep, runflag, fin, flag, next, cur, endsOK, res, 
                           startsOK, segments, lateStop, staleStart, lateEnd, 
-                          staleEnd, earlyStop, selfStart, usedStart, hret, 
-                          wrote, afterStop, ctimedout, wtimedout, i, ok >>
+                          staleEnd, earlyStop, selfStart, pendingStart, 
+                          cleaned, usedStart, hret, wrote, afterStop, 
+                          ctimedout, wtimedout, i, ok >>
 
 L1a == /\ pc["w"] = "L1a"
        /\ last' = [t |-> "w", k |-> "R", v |-> "rs", x |-> rs]
@@ -559,8 +599,9 @@ L1a == /\ pc["w"] = "L1a"
              ELSE /\ pc' = [pc EXCEPT !["w"] = "L1b"]
        /\ UNCHANGED << rs, rep, runflag, fin, flag, next, cur, endsOK, res, 
                        startsOK, segments, lateStop, staleStart, lateEnd, 
-                       staleEnd, earlyStop, selfStart, usedStart, usedStop, 
-                       hret, wrote, afterStop, ctimedout, wtimedout, i, ok >>
+                       staleEnd, earlyStop, selfStart, pendingStart, cleaned, 
+                       usedStart, usedStop, hret, wrote, afterStop, ctimedout, 
+                       wtimedout, i, ok >>
 
 L1b == /\ pc["w"] = "L1b"
        /\ last' = [t |-> "w", k |-> "R", v |-> "rs", x |-> rs]
@@ -569,8 +610,9 @@ L1b == /\ pc["w"] = "L1b"
              ELSE /\ pc' = [pc EXCEPT !["w"] = "L2"]
        /\ UNCHANGED << rs, rep, runflag, fin, flag, next, cur, endsOK, res, 
                        startsOK, segments, lateStop, staleStart, lateEnd, 
-                       staleEnd, earlyStop, selfStart, usedStart, usedStop, 
-                       hret, wrote, afterStop, ctimedout, wtimedout, i, ok >>
+                       staleEnd, earlyStop, selfStart, pendingStart, cleaned, 
+                       usedStart, usedStop, hret, wrote, afterStop, ctimedout, 
+                       wtimedout, i, ok >>
 
 L2 == /\ pc["w"] = "L2"
       /\ last' = [t |-> "w", k |-> "R", v |-> "rs", x |-> rs]
@@ -579,8 +621,9 @@ L2 == /\ pc["w"] = "L2"
             ELSE /\ pc' = [pc EXCEPT !["w"] = "L3a"]
       /\ UNCHANGED << rs, rep, runflag, fin, flag, next, cur, endsOK, res, 
                       startsOK, segments, lateStop, staleStart, lateEnd, 
-                      staleEnd, earlyStop, selfStart, usedStart, usedStop, 
-                      hret, wrote, afterStop, ctimedout, wtimedout, i, ok >>
+                      staleEnd, earlyStop, selfStart, pendingStart, cleaned, 
+                      usedStart, usedStop, hret, wrote, afterStop, ctimedout, 
+                      wtimedout, i, ok >>
 
 L3a == /\ pc["w"] = "L3a"
        /\ last' = [t |-> "w", k |-> "R", v |-> "rep", x |-> rep]
@@ -589,8 +632,9 @@ L3a == /\ pc["w"] = "L3a"
              ELSE /\ pc' = [pc EXCEPT !["w"] = "L3b"]
        /\ UNCHANGED << rs, rep, runflag, fin, flag, next, cur, endsOK, res, 
                        startsOK, segments, lateStop, staleStart, lateEnd, 
-                       staleEnd, earlyStop, selfStart, usedStart, usedStop, 
-                       hret, wrote, afterStop, ctimedout, wtimedout, i, ok >>
+                       staleEnd, earlyStop, selfStart, pendingStart, cleaned, 
+                       usedStart, usedStop, hret, wrote, afterStop, ctimedout, 
+                       wtimedout, i, ok >>
 
 L3b == /\ pc["w"] = "L3b"
        /\ last' = [t |-> "w", k |-> "R", v |-> "rep", x |-> rep]
@@ -599,19 +643,21 @@ L3b == /\ pc["w"] = "L3b"
              ELSE /\ pc' = [pc EXCEPT !["w"] = "L5"]
        /\ UNCHANGED << rs, rep, runflag, fin, flag, next, cur, endsOK, res, 
                        startsOK, segments, lateStop, staleStart, lateEnd, 
-                       staleEnd, earlyStop, selfStart, usedStart, usedStop, 
-                       hret, wrote, afterStop, ctimedout, wtimedout, i, ok >>
+                       staleEnd, earlyStop, selfStart, pendingStart, cleaned, 
+                       usedStart, usedStop, hret, wrote, afterStop, ctimedout, 
+                       wtimedout, i, ok >>
 
 L5 == /\ pc["w"] = "L5"
       /\ selfStart' = TRUE
       /\ rs' = "STARTING"
       /\ afterStop' = -1
+      /\ pendingStart' = TRUE
       /\ last' = [t |-> "w", k |-> "W", v |-> "rs", x |-> "STARTING"]
       /\ pc' = [pc EXCEPT !["w"] = "L6a"]
       /\ UNCHANGED << rep, runflag, fin, flag, next, cur, endsOK, res, 
                       startsOK, segments, lateStop, staleStart, lateEnd, 
-                      staleEnd, earlyStop, usedStart, usedStop, hret, wrote, 
-                      ctimedout, wtimedout, i, ok >>
+                      staleEnd, earlyStop, cleaned, usedStart, usedStop, hret, 
+                      wrote, ctimedout, wtimedout, i, ok >>
 
 L6a == /\ pc["w"] = "L6a"
        /\ last' = [t |-> "w", k |-> "R", v |-> "rep", x |-> rep]
@@ -620,8 +666,9 @@ L6a == /\ pc["w"] = "L6a"
              ELSE /\ pc' = [pc EXCEPT !["w"] = "L6b"]
        /\ UNCHANGED << rs, rep, runflag, fin, flag, next, cur, endsOK, res, 
                        startsOK, segments, lateStop, staleStart, lateEnd, 
-                       staleEnd, earlyStop, selfStart, usedStart, usedStop, 
-                       hret, wrote, afterStop, ctimedout, wtimedout, i, ok >>
+                       staleEnd, earlyStop, selfStart, pendingStart, cleaned, 
+                       usedStart, usedStop, hret, wrote, afterStop, ctimedout, 
+                       wtimedout, i, ok >>
 
 L6b == /\ pc["w"] = "L6b"
        /\ rep' = "STARTED"
@@ -629,8 +676,9 @@ L6b == /\ pc["w"] = "L6b"
        /\ pc' = [pc EXCEPT !["w"] = "L8"]
        /\ UNCHANGED << rs, runflag, fin, flag, next, cur, endsOK, res, 
                        startsOK, segments, lateStop, staleStart, lateEnd, 
-                       staleEnd, earlyStop, selfStart, usedStart, usedStop, 
-                       hret, wrote, afterStop, ctimedout, wtimedout, i, ok >>
+                       staleEnd, earlyStop, selfStart, pendingStart, cleaned, 
+                       usedStart, usedStop, hret, wrote, afterStop, ctimedout, 
+                       wtimedout, i, ok >>
 
 L8 == /\ pc["w"] = "L8"
       /\ flag' = TRUE
@@ -639,8 +687,8 @@ L8 == /\ pc["w"] = "L8"
       /\ pc' = [pc EXCEPT !["w"] = "L9r"]
       /\ UNCHANGED << rs, rep, runflag, fin, next, cur, endsOK, res, startsOK, 
                       segments, lateStop, staleStart, lateEnd, staleEnd, 
-                      earlyStop, selfStart, usedStart, usedStop, hret, wrote, 
-                      afterStop, ctimedout, i, ok >>
+                      earlyStop, selfStart, pendingStart, cleaned, usedStart, 
+                      usedStop, hret, wrote, afterStop, ctimedout, i, ok >>
 
 L9r == /\ pc["w"] = "L9r"
        /\ last' = [t |-> "w", k |-> "R", v |-> "runflag", x |-> IF runflag THEN "True" ELSE "False"]
@@ -649,20 +697,21 @@ L9r == /\ pc["w"] = "L9r"
              ELSE /\ pc' = [pc EXCEPT !["w"] = "L9s"]
        /\ UNCHANGED << rs, rep, runflag, fin, flag, next, cur, endsOK, res, 
                        startsOK, segments, lateStop, staleStart, lateEnd, 
-                       staleEnd, earlyStop, selfStart, usedStart, usedStop, 
-                       hret, wrote, afterStop, ctimedout, wtimedout, i, ok >>
+                       staleEnd, earlyStop, selfStart, pendingStart, cleaned, 
+                       usedStart, usedStop, hret, wrote, afterStop, ctimedout, 
+                       wtimedout, i, ok >>
 
 L9s == /\ pc["w"] = "L9s"
        /\ \/ /\ last' = [t |-> "w", k |-> "sleep", v |-> "-", x |-> "-"]
-             /\ UNCHANGED <<ctimedout, wtimedout>>
+             /\ UNCHANGED wtimedout
           \/ /\ wtimedout' = TRUE
-             /\ ctimedout' = TRUE
              /\ last' = [t |-> "w", k |-> "sleep", v |-> "timeout", x |-> "-"]
        /\ pc' = [pc EXCEPT !["w"] = "L9r"]
        /\ UNCHANGED << rs, rep, runflag, fin, flag, next, cur, endsOK, res, 
                        startsOK, segments, lateStop, staleStart, lateEnd, 
-                       staleEnd, earlyStop, selfStart, usedStart, usedStop, 
-                       hret, wrote, afterStop, i, ok >>
+                       staleEnd, earlyStop, selfStart, pendingStart, cleaned, 
+                       usedStart, usedStop, hret, wrote, afterStop, ctimedout, 
+                       i, ok >>
 
 L10 == /\ pc["w"] = "L10"
        /\ runflag' = FALSE
@@ -671,8 +720,8 @@ L10 == /\ pc["w"] = "L10"
        /\ pc' = [pc EXCEPT !["w"] = "W7"]
        /\ UNCHANGED << rs, rep, fin, flag, next, cur, endsOK, res, segments, 
                        lateStop, staleStart, lateEnd, staleEnd, earlyStop, 
-                       selfStart, usedStart, usedStop, hret, wrote, afterStop, 
-                       ctimedout, wtimedout, i, ok >>
+                       selfStart, pendingStart, cleaned, usedStart, usedStop, 
+                       hret, wrote, afterStop, ctimedout, wtimedout, i, ok >>
 
 W7 == /\ pc["w"] = "W7"
       /\ rs' = "STOPPED"
@@ -681,8 +730,9 @@ W7 == /\ pc["w"] = "W7"
       /\ pc' = [pc EXCEPT !["w"] = "W8"]
       /\ UNCHANGED << rep, runflag, fin, flag, next, cur, endsOK, res, 
                       startsOK, segments, lateStop, staleStart, lateEnd, 
-                      staleEnd, earlyStop, selfStart, usedStart, usedStop, 
-                      hret, wrote, ctimedout, wtimedout, i, ok >>
+                      staleEnd, earlyStop, selfStart, pendingStart, cleaned, 
+                      usedStart, usedStop, hret, wrote, ctimedout, wtimedout, 
+                      i, ok >>
 
 W8 == /\ pc["w"] = "W8"
       /\ last' = [t |-> "w", k |-> "R", v |-> "rep", x |-> rep]
@@ -693,17 +743,20 @@ W8 == /\ pc["w"] = "W8"
             ELSE /\ pc' = [pc EXCEPT !["w"] = "W9a"]
       /\ UNCHANGED << rs, rep, runflag, fin, flag, next, cur, endsOK, res, 
                       startsOK, segments, lateStop, staleStart, lateEnd, 
-                      staleEnd, earlyStop, selfStart, usedStart, usedStop, 
-                      hret, wrote, afterStop, ctimedout, wtimedout, i, ok >>
+                      staleEnd, earlyStop, selfStart, pendingStart, cleaned, 
+                      usedStart, usedStop, hret, wrote, afterStop, ctimedout, 
+                      wtimedout, i, ok >>
 
 W9a == /\ pc["w"] = "W9a"
        /\ rep' = "ENDED"
+       /\ pendingStart' = FALSE
        /\ last' = [t |-> "w", k |-> "W", v |-> "rep", x |-> "ENDED"]
        /\ pc' = [pc EXCEPT !["w"] = "W9b"]
        /\ UNCHANGED << rs, runflag, fin, flag, next, cur, endsOK, res, 
                        startsOK, segments, lateStop, staleStart, lateEnd, 
-                       staleEnd, earlyStop, selfStart, usedStart, usedStop, 
-                       hret, wrote, afterStop, ctimedout, wtimedout, i, ok >>
+                       staleEnd, earlyStop, selfStart, cleaned, usedStart, 
+                       usedStop, hret, wrote, afterStop, ctimedout, wtimedout, 
+                       i, ok >>
 
 W9b == /\ pc["w"] = "W9b"
        /\ rs' = "ENDED"
@@ -711,8 +764,9 @@ W9b == /\ pc["w"] = "W9b"
        /\ pc' = [pc EXCEPT !["w"] = "W9c"]
        /\ UNCHANGED << rep, runflag, fin, flag, next, cur, endsOK, res, 
                        startsOK, segments, lateStop, staleStart, lateEnd, 
-                       staleEnd, earlyStop, selfStart, usedStart, usedStop, 
-                       hret, wrote, afterStop, ctimedout, wtimedout, i, ok >>
+                       staleEnd, earlyStop, selfStart, pendingStart, cleaned, 
+                       usedStart, usedStop, hret, wrote, afterStop, ctimedout, 
+                       wtimedout, i, ok >>
 
 W9c == /\ pc["w"] = "W9c"
        /\ fin' = TRUE
@@ -722,8 +776,9 @@ W9c == /\ pc["w"] = "W9c"
              ELSE /\ pc' = [pc EXCEPT !["w"] = "W_clear"]
        /\ UNCHANGED << rs, rep, runflag, flag, next, cur, endsOK, res, 
                        startsOK, segments, lateStop, staleStart, lateEnd, 
-                       staleEnd, earlyStop, selfStart, usedStart, usedStop, 
-                       hret, wrote, afterStop, ctimedout, wtimedout, i, ok >>
+                       staleEnd, earlyStop, selfStart, pendingStart, cleaned, 
+                       usedStart, usedStop, hret, wrote, afterStop, ctimedout, 
+                       wtimedout, i, ok >>
 
 W_clear == /\ pc["w"] = "W_clear"
            /\ flag' = FALSE
@@ -731,8 +786,9 @@ W_clear == /\ pc["w"] = "W_clear"
            /\ pc' = [pc EXCEPT !["w"] = "W_loop"]
            /\ UNCHANGED << rs, rep, runflag, fin, next, cur, endsOK, res, 
                            startsOK, segments, lateStop, staleStart, lateEnd, 
-                           staleEnd, earlyStop, selfStart, usedStart, usedStop, 
-                           hret, wrote, afterStop, ctimedout, wtimedout, i, ok >>
+                           staleEnd, earlyStop, selfStart, pendingStart, 
+                           cleaned, usedStart, usedStop, hret, wrote, 
+                           afterStop, ctimedout, wtimedout, i, ok >>
 
 W_loop == /\ pc["w"] = "W_loop"
           /\ last' = [t |-> "w", k |-> "R", v |-> "fin", x |-> IF fin THEN "True" ELSE "False"]
@@ -741,16 +797,18 @@ W_loop == /\ pc["w"] = "W_loop"
                 ELSE /\ pc' = [pc EXCEPT !["w"] = "W_wait"]
           /\ UNCHANGED << rs, rep, runflag, fin, flag, next, cur, endsOK, res, 
                           startsOK, segments, lateStop, staleStart, lateEnd, 
-                          staleEnd, earlyStop, selfStart, usedStart, usedStop, 
-                          hret, wrote, afterStop, ctimedout, wtimedout, i, ok >>
+                          staleEnd, earlyStop, selfStart, pendingStart, 
+                          cleaned, usedStart, usedStop, hret, wrote, afterStop, 
+                          ctimedout, wtimedout, i, ok >>
 
 W_wait == /\ pc["w"] = "W_wait"
           /\ last' = [t |-> "w", k |-> "ev", v |-> "wait", x |-> "-"]
           /\ pc' = [pc EXCEPT !["w"] = "W_woke"]
           /\ UNCHANGED << rs, rep, runflag, fin, flag, next, cur, endsOK, res, 
                           startsOK, segments, lateStop, staleStart, lateEnd, 
-                          staleEnd, earlyStop, selfStart, usedStart, usedStop, 
-                          hret, wrote, afterStop, ctimedout, wtimedout, i, ok >>
+                          staleEnd, earlyStop, selfStart, pendingStart, 
+                          cleaned, usedStart, usedStop, hret, wrote, afterStop, 
+                          ctimedout, wtimedout, i, ok >>
 
 worker == W_woke \/ W_clear0 \/ W2 \/ W3 \/ W5 \/ R0 \/ R1a \/ R1b
              \/ R_body \/ H1a \/ H1b \/ H3 \/ H4f \/ H4s \/ R_fault
@@ -766,11 +824,14 @@ C_next == /\ pc["c"] = "C_next"
                 THEN /\ pc' = [pc EXCEPT !["c"] = "S1a"]
                 ELSE /\ IF Script[i] = "stop"
                            THEN /\ pc' = [pc EXCEPT !["c"] = "P1a"]
-                           ELSE /\ pc' = [pc EXCEPT !["c"] = "E1"]
+                           ELSE /\ IF Script[i] = "endrep"
+                                      THEN /\ pc' = [pc EXCEPT !["c"] = "E1"]
+                                      ELSE /\ pc' = [pc EXCEPT !["c"] = "K1"]
           /\ UNCHANGED << rs, rep, runflag, fin, flag, next, cur, endsOK, res, 
                           startsOK, segments, lateStop, staleStart, lateEnd, 
-                          staleEnd, earlyStop, selfStart, usedStart, usedStop, 
-                          hret, afterStop, ctimedout, wtimedout, i >>
+                          staleEnd, earlyStop, selfStart, pendingStart, 
+                          cleaned, usedStart, usedStop, hret, afterStop, 
+                          ctimedout, wtimedout, i >>
 
 S1a == /\ pc["c"] = "S1a"
        /\ last' = [t |-> "c", k |-> "R", v |-> "rs", x |-> rs]
@@ -781,8 +842,9 @@ S1a == /\ pc["c"] = "S1a"
                   /\ ok' = ok
        /\ UNCHANGED << rs, rep, runflag, fin, flag, next, cur, endsOK, res, 
                        startsOK, segments, lateStop, staleStart, lateEnd, 
-                       staleEnd, earlyStop, selfStart, usedStart, usedStop, 
-                       hret, wrote, afterStop, ctimedout, wtimedout, i >>
+                       staleEnd, earlyStop, selfStart, pendingStart, cleaned, 
+                       usedStart, usedStop, hret, wrote, afterStop, ctimedout, 
+                       wtimedout, i >>
 
 S1b == /\ pc["c"] = "S1b"
        /\ last' = [t |-> "c", k |-> "R", v |-> "rs", x |-> rs]
@@ -793,8 +855,9 @@ S1b == /\ pc["c"] = "S1b"
                   /\ ok' = ok
        /\ UNCHANGED << rs, rep, runflag, fin, flag, next, cur, endsOK, res, 
                        startsOK, segments, lateStop, staleStart, lateEnd, 
-                       staleEnd, earlyStop, selfStart, usedStart, usedStop, 
-                       hret, wrote, afterStop, ctimedout, wtimedout, i >>
+                       staleEnd, earlyStop, selfStart, pendingStart, cleaned, 
+                       usedStart, usedStop, hret, wrote, afterStop, ctimedout, 
+                       wtimedout, i >>
 
 S2 == /\ pc["c"] = "S2"
       /\ last' = [t |-> "c", k |-> "R", v |-> "rs", x |-> rs]
@@ -807,8 +870,9 @@ S2 == /\ pc["c"] = "S2"
                  /\ ok' = ok
       /\ UNCHANGED << rs, rep, runflag, fin, flag, next, cur, endsOK, res, 
                       startsOK, segments, lateStop, staleStart, lateEnd, 
-                      staleEnd, earlyStop, selfStart, usedStart, usedStop, 
-                      hret, wrote, afterStop, ctimedout, wtimedout, i >>
+                      staleEnd, earlyStop, selfStart, pendingStart, cleaned, 
+                      usedStart, usedStop, hret, wrote, afterStop, ctimedout, 
+                      wtimedout, i >>
 
 S2x == /\ pc["c"] = "S2x"
        /\ last' = [t |-> "c", k |-> "R", v |-> "rs", x |-> rs]
@@ -819,8 +883,9 @@ S2x == /\ pc["c"] = "S2x"
                   /\ ok' = ok
        /\ UNCHANGED << rs, rep, runflag, fin, flag, next, cur, endsOK, res, 
                        startsOK, segments, lateStop, staleStart, lateEnd, 
-                       staleEnd, earlyStop, selfStart, usedStart, usedStop, 
-                       hret, wrote, afterStop, ctimedout, wtimedout, i >>
+                       staleEnd, earlyStop, selfStart, pendingStart, cleaned, 
+                       usedStart, usedStop, hret, wrote, afterStop, ctimedout, 
+                       wtimedout, i >>
 
 S3a == /\ pc["c"] = "S3a"
        /\ last' = [t |-> "c", k |-> "R", v |-> "rep", x |-> rep]
@@ -829,8 +894,9 @@ S3a == /\ pc["c"] = "S3a"
              ELSE /\ pc' = [pc EXCEPT !["c"] = "S3b"]
        /\ UNCHANGED << rs, rep, runflag, fin, flag, next, cur, endsOK, res, 
                        startsOK, segments, lateStop, staleStart, lateEnd, 
-                       staleEnd, earlyStop, selfStart, usedStart, usedStop, 
-                       hret, wrote, afterStop, ctimedout, wtimedout, i, ok >>
+                       staleEnd, earlyStop, selfStart, pendingStart, cleaned, 
+                       usedStart, usedStop, hret, wrote, afterStop, ctimedout, 
+                       wtimedout, i, ok >>
 
 S3b == /\ pc["c"] = "S3b"
        /\ last' = [t |-> "c", k |-> "R", v |-> "rep", x |-> rep]
@@ -841,19 +907,21 @@ S3b == /\ pc["c"] = "S3b"
                   /\ ok' = ok
        /\ UNCHANGED << rs, rep, runflag, fin, flag, next, cur, endsOK, res, 
                        startsOK, segments, lateStop, staleStart, lateEnd, 
-                       staleEnd, earlyStop, selfStart, usedStart, usedStop, 
-                       hret, wrote, afterStop, ctimedout, wtimedout, i >>
+                       staleEnd, earlyStop, selfStart, pendingStart, cleaned, 
+                       usedStart, usedStop, hret, wrote, afterStop, ctimedout, 
+                       wtimedout, i >>
 
 S5 == /\ pc["c"] = "S5"
-      /\ staleStart' = (staleStart \/ PostRun(pc["w"]) \/ (InRunLoop(pc["w"]) /\ rs = "STOPPING"))
+      /\ staleStart' = (staleStart \/ PostRun(pc["w"]) \/ pc["w"] = "R1b")
       /\ rs' = "STARTING"
       /\ wrote' = TRUE
       /\ afterStop' = -1
+      /\ pendingStart' = TRUE
       /\ last' = [t |-> "c", k |-> "W", v |-> "rs", x |-> "STARTING"]
       /\ pc' = [pc EXCEPT !["c"] = "S6a"]
       /\ UNCHANGED << rep, runflag, fin, flag, next, cur, endsOK, res, 
                       startsOK, segments, lateStop, lateEnd, staleEnd, 
-                      earlyStop, selfStart, usedStart, usedStop, hret, 
+                      earlyStop, selfStart, cleaned, usedStart, usedStop, hret, 
                       ctimedout, wtimedout, i, ok >>
 
 S6a == /\ pc["c"] = "S6a"
@@ -863,8 +931,9 @@ S6a == /\ pc["c"] = "S6a"
              ELSE /\ pc' = [pc EXCEPT !["c"] = "S6b"]
        /\ UNCHANGED << rs, rep, runflag, fin, flag, next, cur, endsOK, res, 
                        startsOK, segments, lateStop, staleStart, lateEnd, 
-                       staleEnd, earlyStop, selfStart, usedStart, usedStop, 
-                       hret, wrote, afterStop, ctimedout, wtimedout, i, ok >>
+                       staleEnd, earlyStop, selfStart, pendingStart, cleaned, 
+                       usedStart, usedStop, hret, wrote, afterStop, ctimedout, 
+                       wtimedout, i, ok >>
 
 S6b == /\ pc["c"] = "S6b"
        /\ rep' = "STARTED"
@@ -872,8 +941,9 @@ S6b == /\ pc["c"] = "S6b"
        /\ pc' = [pc EXCEPT !["c"] = "S8"]
        /\ UNCHANGED << rs, runflag, fin, flag, next, cur, endsOK, res, 
                        startsOK, segments, lateStop, staleStart, lateEnd, 
-                       staleEnd, earlyStop, selfStart, usedStart, usedStop, 
-                       hret, wrote, afterStop, ctimedout, wtimedout, i, ok >>
+                       staleEnd, earlyStop, selfStart, pendingStart, cleaned, 
+                       usedStart, usedStop, hret, wrote, afterStop, ctimedout, 
+                       wtimedout, i, ok >>
 
 S8 == /\ pc["c"] = "S8"
       /\ flag' = TRUE
@@ -882,8 +952,8 @@ S8 == /\ pc["c"] = "S8"
       /\ pc' = [pc EXCEPT !["c"] = "S9r"]
       /\ UNCHANGED << rs, rep, runflag, fin, next, cur, endsOK, res, startsOK, 
                       segments, lateStop, staleStart, lateEnd, staleEnd, 
-                      earlyStop, selfStart, usedStart, usedStop, hret, wrote, 
-                      afterStop, wtimedout, i, ok >>
+                      earlyStop, selfStart, pendingStart, cleaned, usedStart, 
+                      usedStop, hret, wrote, afterStop, wtimedout, i, ok >>
 
 S9r == /\ pc["c"] = "S9r"
        /\ last' = [t |-> "c", k |-> "R", v |-> "runflag", x |-> IF runflag THEN "True" ELSE "False"]
@@ -892,21 +962,22 @@ S9r == /\ pc["c"] = "S9r"
              ELSE /\ pc' = [pc EXCEPT !["c"] = "S9s"]
        /\ UNCHANGED << rs, rep, runflag, fin, flag, next, cur, endsOK, res, 
                        startsOK, segments, lateStop, staleStart, lateEnd, 
-                       staleEnd, earlyStop, selfStart, usedStart, usedStop, 
-                       hret, wrote, afterStop, ctimedout, wtimedout, i, ok >>
+                       staleEnd, earlyStop, selfStart, pendingStart, cleaned, 
+                       usedStart, usedStop, hret, wrote, afterStop, ctimedout, 
+                       wtimedout, i, ok >>
 
 S9s == /\ pc["c"] = "S9s"
        /\ \/ /\ last' = [t |-> "c", k |-> "sleep", v |-> "-", x |-> "-"]
-             /\ UNCHANGED <<ctimedout, wtimedout>>
+             /\ UNCHANGED ctimedout
           \/ /\ AnyTimeout \/ WBlocked \/ WDone
              /\ ctimedout' = TRUE
-             /\ wtimedout' = TRUE
              /\ last' = [t |-> "c", k |-> "sleep", v |-> "timeout", x |-> "-"]
        /\ pc' = [pc EXCEPT !["c"] = "S9r"]
        /\ UNCHANGED << rs, rep, runflag, fin, flag, next, cur, endsOK, res, 
                        startsOK, segments, lateStop, staleStart, lateEnd, 
-                       staleEnd, earlyStop, selfStart, usedStart, usedStop, 
-                       hret, wrote, afterStop, i, ok >>
+                       staleEnd, earlyStop, selfStart, pendingStart, cleaned, 
+                       usedStart, usedStop, hret, wrote, afterStop, wtimedout, 
+                       i, ok >>
 
 S10 == /\ pc["c"] = "S10"
        /\ runflag' = FALSE
@@ -915,8 +986,8 @@ S10 == /\ pc["c"] = "S10"
        /\ pc' = [pc EXCEPT !["c"] = "C_ret"]
        /\ UNCHANGED << rs, rep, fin, flag, next, cur, endsOK, res, segments, 
                        lateStop, staleStart, lateEnd, staleEnd, earlyStop, 
-                       selfStart, usedStart, usedStop, hret, wrote, afterStop, 
-                       ctimedout, wtimedout, i, ok >>
+                       selfStart, pendingStart, cleaned, usedStart, usedStop, 
+                       hret, wrote, afterStop, ctimedout, wtimedout, i, ok >>
 
 P1a == /\ pc["c"] = "P1a"
        /\ last' = [t |-> "c", k |-> "R", v |-> "rs", x |-> rs]
@@ -925,8 +996,9 @@ P1a == /\ pc["c"] = "P1a"
              ELSE /\ pc' = [pc EXCEPT !["c"] = "P1b"]
        /\ UNCHANGED << rs, rep, runflag, fin, flag, next, cur, endsOK, res, 
                        startsOK, segments, lateStop, staleStart, lateEnd, 
-                       staleEnd, earlyStop, selfStart, usedStart, usedStop, 
-                       hret, wrote, afterStop, ctimedout, wtimedout, i, ok >>
+                       staleEnd, earlyStop, selfStart, pendingStart, cleaned, 
+                       usedStart, usedStop, hret, wrote, afterStop, ctimedout, 
+                       wtimedout, i, ok >>
 
 P1b == /\ pc["c"] = "P1b"
        /\ last' = [t |-> "c", k |-> "R", v |-> "rs", x |-> rs]
@@ -937,8 +1009,9 @@ P1b == /\ pc["c"] = "P1b"
                   /\ ok' = ok
        /\ UNCHANGED << rs, rep, runflag, fin, flag, next, cur, endsOK, res, 
                        startsOK, segments, lateStop, staleStart, lateEnd, 
-                       staleEnd, earlyStop, selfStart, usedStart, usedStop, 
-                       hret, wrote, afterStop, ctimedout, wtimedout, i >>
+                       staleEnd, earlyStop, selfStart, pendingStart, cleaned, 
+                       usedStart, usedStop, hret, wrote, afterStop, ctimedout, 
+                       wtimedout, i >>
 
 P3 == /\ pc["c"] = "P3"
       /\ lateStop' = (lateStop \/ ~InRunLoop(pc["w"]) \/ pc["w"] = "R_end2")
@@ -946,6 +1019,7 @@ P3 == /\ pc["c"] = "P3"
       /\ wrote' = TRUE
       /\ ctimedout' = FALSE
       /\ afterStop' = 0
+      /\ pendingStart' = FALSE
       /\ last' = [t |-> "c", k |-> "W", v |-> "rs", x |-> "STOPPING"]
       /\ IF WBlocked
             THEN /\ IF "settle_late_stopping" \in Fixes
@@ -954,7 +1028,7 @@ P3 == /\ pc["c"] = "P3"
             ELSE /\ pc' = [pc EXCEPT !["c"] = "P4f"]
       /\ UNCHANGED << rep, runflag, fin, flag, next, cur, endsOK, res, 
                       startsOK, segments, staleStart, lateEnd, staleEnd, 
-                      earlyStop, selfStart, usedStart, usedStop, hret, 
+                      earlyStop, selfStart, cleaned, usedStart, usedStop, hret, 
                       wtimedout, i, ok >>
 
 P4f == /\ pc["c"] = "P4f"
@@ -966,8 +1040,9 @@ P4f == /\ pc["c"] = "P4f"
              ELSE /\ pc' = [pc EXCEPT !["c"] = "P4s"]
        /\ UNCHANGED << rs, rep, runflag, fin, flag, next, cur, endsOK, res, 
                        startsOK, segments, lateStop, staleStart, lateEnd, 
-                       staleEnd, earlyStop, selfStart, usedStart, usedStop, 
-                       hret, wrote, afterStop, ctimedout, wtimedout, i, ok >>
+                       staleEnd, earlyStop, selfStart, pendingStart, cleaned, 
+                       usedStart, usedStop, hret, wrote, afterStop, ctimedout, 
+                       wtimedout, i, ok >>
 
 P4s == /\ pc["c"] = "P4s"
        /\ \/ /\ last' = [t |-> "c", k |-> "sleep", v |-> "-", x |-> "-"]
@@ -976,10 +1051,9 @@ P4s == /\ pc["c"] = "P4s"
                               THEN /\ pc' = [pc EXCEPT !["c"] = "P5a"]
                               ELSE /\ pc' = [pc EXCEPT !["c"] = "C_ret"]
                    ELSE /\ pc' = [pc EXCEPT !["c"] = "P4f"]
-             /\ UNCHANGED <<ctimedout, wtimedout>>
+             /\ UNCHANGED ctimedout
           \/ /\ AnyTimeout \/ WDone \/ WBlocked
              /\ ctimedout' = TRUE
-             /\ wtimedout' = TRUE
              /\ last' = [t |-> "c", k |-> "sleep", v |-> "timeout", x |-> "-"]
              /\ IF WBlocked
                    THEN /\ IF "settle_late_stopping" \in Fixes
@@ -988,8 +1062,9 @@ P4s == /\ pc["c"] = "P4s"
                    ELSE /\ pc' = [pc EXCEPT !["c"] = "P4f"]
        /\ UNCHANGED << rs, rep, runflag, fin, flag, next, cur, endsOK, res, 
                        startsOK, segments, lateStop, staleStart, lateEnd, 
-                       staleEnd, earlyStop, selfStart, usedStart, usedStop, 
-                       hret, wrote, afterStop, i, ok >>
+                       staleEnd, earlyStop, selfStart, pendingStart, cleaned, 
+                       usedStart, usedStop, hret, wrote, afterStop, wtimedout, 
+                       i, ok >>
 
 P5a == /\ pc["c"] = "P5a"
        /\ last' = [t |-> "c", k |-> "R", v |-> "rs", x |-> rs]
@@ -998,8 +1073,9 @@ P5a == /\ pc["c"] = "P5a"
              ELSE /\ pc' = [pc EXCEPT !["c"] = "P5b"]
        /\ UNCHANGED << rs, rep, runflag, fin, flag, next, cur, endsOK, res, 
                        startsOK, segments, lateStop, staleStart, lateEnd, 
-                       staleEnd, earlyStop, selfStart, usedStart, usedStop, 
-                       hret, wrote, afterStop, ctimedout, wtimedout, i, ok >>
+                       staleEnd, earlyStop, selfStart, pendingStart, cleaned, 
+                       usedStart, usedStop, hret, wrote, afterStop, ctimedout, 
+                       wtimedout, i, ok >>
 
 P5b == /\ pc["c"] = "P5b"
        /\ last' = [t |-> "c", k |-> "R", v |-> "rep", x |-> rep]
@@ -1008,8 +1084,9 @@ P5b == /\ pc["c"] = "P5b"
              ELSE /\ pc' = [pc EXCEPT !["c"] = "P5d"]
        /\ UNCHANGED << rs, rep, runflag, fin, flag, next, cur, endsOK, res, 
                        startsOK, segments, lateStop, staleStart, lateEnd, 
-                       staleEnd, earlyStop, selfStart, usedStart, usedStop, 
-                       hret, wrote, afterStop, ctimedout, wtimedout, i, ok >>
+                       staleEnd, earlyStop, selfStart, pendingStart, cleaned, 
+                       usedStart, usedStop, hret, wrote, afterStop, ctimedout, 
+                       wtimedout, i, ok >>
 
 P5c == /\ pc["c"] = "P5c"
        /\ rs' = "ENDED"
@@ -1017,8 +1094,9 @@ P5c == /\ pc["c"] = "P5c"
        /\ pc' = [pc EXCEPT !["c"] = "C_ret"]
        /\ UNCHANGED << rep, runflag, fin, flag, next, cur, endsOK, res, 
                        startsOK, segments, lateStop, staleStart, lateEnd, 
-                       staleEnd, earlyStop, selfStart, usedStart, usedStop, 
-                       hret, wrote, afterStop, ctimedout, wtimedout, i, ok >>
+                       staleEnd, earlyStop, selfStart, pendingStart, cleaned, 
+                       usedStart, usedStop, hret, wrote, afterStop, ctimedout, 
+                       wtimedout, i, ok >>
 
 P5d == /\ pc["c"] = "P5d"
        /\ rs' = "STOPPED"
@@ -1026,8 +1104,9 @@ P5d == /\ pc["c"] = "P5d"
        /\ pc' = [pc EXCEPT !["c"] = "E1"]
        /\ UNCHANGED << rep, runflag, fin, flag, next, cur, endsOK, res, 
                        startsOK, segments, lateStop, staleStart, lateEnd, 
-                       staleEnd, earlyStop, selfStart, usedStart, usedStop, 
-                       hret, wrote, afterStop, ctimedout, wtimedout, i, ok >>
+                       staleEnd, earlyStop, selfStart, pendingStart, cleaned, 
+                       usedStart, usedStop, hret, wrote, afterStop, ctimedout, 
+                       wtimedout, i, ok >>
 
 E1 == /\ pc["c"] = "E1"
       /\ last' = [t |-> "c", k |-> "R", v |-> "rs", x |-> rs]
@@ -1038,8 +1117,9 @@ E1 == /\ pc["c"] = "E1"
                  /\ ok' = ok
       /\ UNCHANGED << rs, rep, runflag, fin, flag, next, cur, endsOK, res, 
                       startsOK, segments, lateStop, staleStart, lateEnd, 
-                      staleEnd, earlyStop, selfStart, usedStart, usedStop, 
-                      hret, wrote, afterStop, ctimedout, wtimedout, i >>
+                      staleEnd, earlyStop, selfStart, pendingStart, cleaned, 
+                      usedStart, usedStop, hret, wrote, afterStop, ctimedout, 
+                      wtimedout, i >>
 
 E2 == /\ pc["c"] = "E2"
       /\ last' = [t |-> "c", k |-> "R", v |-> "rep", x |-> rep]
@@ -1050,8 +1130,9 @@ E2 == /\ pc["c"] = "E2"
                  /\ ok' = ok
       /\ UNCHANGED << rs, rep, runflag, fin, flag, next, cur, endsOK, res, 
                       startsOK, segments, lateStop, staleStart, lateEnd, 
-                      staleEnd, earlyStop, selfStart, usedStart, usedStop, 
-                      hret, wrote, afterStop, ctimedout, wtimedout, i >>
+                      staleEnd, earlyStop, selfStart, pendingStart, cleaned, 
+                      usedStart, usedStop, hret, wrote, afterStop, ctimedout, 
+                      wtimedout, i >>
 
 E3 == /\ pc["c"] = "E3"
       /\ lateEnd' = (lateEnd \/ rep = "ENDED")
@@ -1061,8 +1142,8 @@ E3 == /\ pc["c"] = "E3"
       /\ pc' = [pc EXCEPT !["c"] = "E4"]
       /\ UNCHANGED << rs, runflag, fin, flag, next, cur, endsOK, res, startsOK, 
                       segments, lateStop, staleStart, staleEnd, earlyStop, 
-                      selfStart, usedStart, usedStop, hret, afterStop, 
-                      ctimedout, wtimedout, i, ok >>
+                      selfStart, pendingStart, cleaned, usedStart, usedStop, 
+                      hret, afterStop, ctimedout, wtimedout, i, ok >>
 
 E4 == /\ pc["c"] = "E4"
       /\ staleEnd' = (staleEnd \/ pc["w"] = "W_clear")
@@ -1073,8 +1154,93 @@ E4 == /\ pc["c"] = "E4"
       /\ pc' = [pc EXCEPT !["c"] = "C_ret"]
       /\ UNCHANGED << rs, rep, runflag, fin, cur, res, startsOK, segments, 
                       lateStop, staleStart, lateEnd, earlyStop, selfStart, 
-                      usedStart, usedStop, hret, wrote, afterStop, ctimedout, 
-                      wtimedout, i, ok >>
+                      pendingStart, cleaned, usedStart, usedStop, hret, wrote, 
+                      afterStop, ctimedout, wtimedout, i, ok >>
+
+K1 == /\ pc["c"] = "K1"
+      /\ rs' = "STOPPING"
+      /\ wrote' = TRUE
+      /\ ctimedout' = FALSE
+      /\ afterStop' = 0
+      /\ pendingStart' = FALSE
+      /\ last' = [t |-> "c", k |-> "W", v |-> "rs", x |-> "STOPPING"]
+      /\ IF WBlocked
+            THEN /\ pc' = [pc EXCEPT !["c"] = "K3"]
+            ELSE /\ pc' = [pc EXCEPT !["c"] = "K2f"]
+      /\ UNCHANGED << rep, runflag, fin, flag, next, cur, endsOK, res, 
+                      startsOK, segments, lateStop, staleStart, lateEnd, 
+                      staleEnd, earlyStop, selfStart, cleaned, usedStart, 
+                      usedStop, hret, wtimedout, i, ok >>
+
+K2f == /\ pc["c"] = "K2f"
+       /\ last' = [t |-> "c", k |-> "R", v |-> "fin", x |-> IF fin THEN "True" ELSE "False"]
+       /\ IF fin \/ ctimedout
+             THEN /\ pc' = [pc EXCEPT !["c"] = "K3"]
+             ELSE /\ pc' = [pc EXCEPT !["c"] = "K2s"]
+       /\ UNCHANGED << rs, rep, runflag, fin, flag, next, cur, endsOK, res, 
+                       startsOK, segments, lateStop, staleStart, lateEnd, 
+                       staleEnd, earlyStop, selfStart, pendingStart, cleaned, 
+                       usedStart, usedStop, hret, wrote, afterStop, ctimedout, 
+                       wtimedout, i, ok >>
+
+K2s == /\ pc["c"] = "K2s"
+       /\ \/ /\ last' = [t |-> "c", k |-> "sleep", v |-> "-", x |-> "-"]
+             /\ IF WBlocked
+                   THEN /\ pc' = [pc EXCEPT !["c"] = "K3"]
+                   ELSE /\ pc' = [pc EXCEPT !["c"] = "K2f"]
+             /\ UNCHANGED ctimedout
+          \/ /\ AnyTimeout \/ WDone \/ WBlocked
+             /\ ctimedout' = TRUE
+             /\ last' = [t |-> "c", k |-> "sleep", v |-> "timeout", x |-> "-"]
+             /\ IF WBlocked
+                   THEN /\ pc' = [pc EXCEPT !["c"] = "K3"]
+                   ELSE /\ pc' = [pc EXCEPT !["c"] = "K2f"]
+       /\ UNCHANGED << rs, rep, runflag, fin, flag, next, cur, endsOK, res, 
+                       startsOK, segments, lateStop, staleStart, lateEnd, 
+                       staleEnd, earlyStop, selfStart, pendingStart, cleaned, 
+                       usedStart, usedStop, hret, wrote, afterStop, wtimedout, 
+                       i, ok >>
+
+K3 == /\ pc["c"] = "K3"
+      /\ fin' = TRUE
+      /\ last' = [t |-> "c", k |-> "W", v |-> "fin", x |-> IF TRUE THEN "True" ELSE "False"]
+      /\ pc' = [pc EXCEPT !["c"] = "K4"]
+      /\ UNCHANGED << rs, rep, runflag, flag, next, cur, endsOK, res, startsOK, 
+                      segments, lateStop, staleStart, lateEnd, staleEnd, 
+                      earlyStop, selfStart, pendingStart, cleaned, usedStart, 
+                      usedStop, hret, wrote, afterStop, ctimedout, wtimedout, 
+                      i, ok >>
+
+K4 == /\ pc["c"] = "K4"
+      /\ flag' = TRUE
+      /\ last' = [t |-> "c", k |-> "ev", v |-> "set", x |-> "-"]
+      /\ pc' = [pc EXCEPT !["c"] = "K5"]
+      /\ UNCHANGED << rs, rep, runflag, fin, next, cur, endsOK, res, startsOK, 
+                      segments, lateStop, staleStart, lateEnd, staleEnd, 
+                      earlyStop, selfStart, pendingStart, cleaned, usedStart, 
+                      usedStop, hret, wrote, afterStop, ctimedout, wtimedout, 
+                      i, ok >>
+
+K5 == /\ pc["c"] = "K5"
+      /\ rs' = "NOT_INITIALIZED"
+      /\ afterStop' = -1
+      /\ last' = [t |-> "c", k |-> "W", v |-> "rs", x |-> "NOT_INITIALIZED"]
+      /\ pc' = [pc EXCEPT !["c"] = "K6"]
+      /\ UNCHANGED << rep, runflag, fin, flag, next, cur, endsOK, res, 
+                      startsOK, segments, lateStop, staleStart, lateEnd, 
+                      staleEnd, earlyStop, selfStart, pendingStart, cleaned, 
+                      usedStart, usedStop, hret, wrote, ctimedout, wtimedout, 
+                      i, ok >>
+
+K6 == /\ pc["c"] = "K6"
+      /\ rep' = "NOT_INITIALIZED"
+      /\ cleaned' = TRUE
+      /\ last' = [t |-> "c", k |-> "W", v |-> "rep", x |-> "NOT_INITIALIZED"]
+      /\ pc' = [pc EXCEPT !["c"] = "C_ret"]
+      /\ UNCHANGED << rs, runflag, fin, flag, next, cur, endsOK, res, startsOK, 
+                      segments, lateStop, staleStart, lateEnd, staleEnd, 
+                      earlyStop, selfStart, pendingStart, usedStart, usedStop, 
+                      hret, wrote, afterStop, ctimedout, wtimedout, i, ok >>
 
 C_ret == /\ pc["c"] = "C_ret"
          /\ res' = Append(res, IF ok THEN "ok" ELSE "DSOLError")
@@ -1085,13 +1251,14 @@ C_ret == /\ pc["c"] = "C_ret"
                ELSE /\ pc' = [pc EXCEPT !["c"] = "C_next"]
          /\ UNCHANGED << rs, rep, runflag, fin, flag, next, cur, endsOK, 
                          startsOK, segments, lateStop, staleStart, lateEnd, 
-                         staleEnd, earlyStop, selfStart, usedStart, usedStop, 
-                         hret, wrote, afterStop, ctimedout, wtimedout, ok >>
+                         staleEnd, earlyStop, selfStart, pendingStart, cleaned, 
+                         usedStart, usedStop, hret, wrote, afterStop, 
+                         ctimedout, wtimedout, ok >>
 
 caller == C_next \/ S1a \/ S1b \/ S2 \/ S2x \/ S3a \/ S3b \/ S5 \/ S6a
              \/ S6b \/ S8 \/ S9r \/ S9s \/ S10 \/ P1a \/ P1b \/ P3 \/ P4f
              \/ P4s \/ P5a \/ P5b \/ P5c \/ P5d \/ E1 \/ E2 \/ E3 \/ E4
-             \/ C_ret
+             \/ K1 \/ K2f \/ K2s \/ K3 \/ K4 \/ K5 \/ K6 \/ C_ret
 
 (* Allow infinite stuttering to prevent deadlock on termination. *)
 Terminating == /\ \A self \in ProcSet: pc[self] = "Done"
@@ -1112,7 +1279,12 @@ Quiescent == pc["c"] = "Done" /\ (pc["w"] = "Done" \/ (pc["w"] = "W_woke" /\ ~fl
 
 (* the statement's observables at quiescence *)
 NoStuckState == Quiescent => rs \notin {"STARTING", "STARTED", "STOPPING"}
-NoLostStart == Quiescent => segments = startsOK
+NoLostStart == Quiescent => segments = startsOK      \* (too syntactic: a start admitted while a handler is still running keeps that segment alive; not checked)
+(* an accepted start() takes effect: the run thread begins a segment, or keeps the current one running, or the replication ends *)
+StartEffective == Quiescent => ~pendingStart
+NoSpuriousSegment == Quiescent => segments <= startsOK
+(* an accepted cleanup() leaves the simulator uninitialised and the run thread gone *)
+CleanupFinal == (Quiescent /\ cleaned) => (rs = "NOT_INITIALIZED" /\ rep = "NOT_INITIALIZED" /\ pc["w"] = "Done")
 EndedFinal == (Quiescent /\ rep = "ENDED") => (rs = "ENDED" /\ pc["w"] = "Done")
 ThreadGoneAfterEnd == (Quiescent /\ rs = "ENDED") => pc["w"] = "Done"
 RefusedWroteNothing == (last.k = "ret" /\ last.x = "DSOLError") => ~wrote
@@ -1123,6 +1295,8 @@ StopEffective == afterStop <= 1
 Known == lateStop \/ staleStart \/ lateEnd \/ staleEnd \/ earlyStop \/ selfStart
 NoStuckStateK == Known \/ NoStuckState
 NoLostStartK == Known \/ NoLostStart
+StartEffectiveK == Known \/ StartEffective
+CleanupFinalK == Known \/ CleanupFinal
 EndedFinalK == Known \/ EndedFinal
 ThreadGoneK == Known \/ ThreadGoneAfterEnd
 StopEffectiveK == Known \/ StopEffective
@@ -1133,7 +1307,7 @@ EndRepEffectiveK == Known \/ EndRepEffective
 (* ---- liveness (checked with TLC on every scenario under LiveSpec): commands return, the run thread parks or ends ---- *)
 (* fairness: both threads keep taking steps, and the clock advances: a spin wait that can only be ended by its         *)
 (* one-second limit does reach that limit (strong fairness on the time-out branch of the sleep points)                  *)
-TimeoutStep == (H4s \/ L9s \/ S9s \/ P4s) /\ last'.v = "timeout"
+TimeoutStep == (H4s \/ L9s \/ S9s \/ P4s \/ K2s) /\ last'.v = "timeout"
 LiveSpec == Spec /\ WF_vars(caller) /\ SF_vars(TimeoutStep)
 Settles == <>[]Quiescent                                        \* no livelock: every scenario ends in a quiescent state
 EndedThreadGone == [](rs = "ENDED" => <>(pc["w"] = "Done"))    \* after the replication end the run thread terminates
